@@ -105,6 +105,8 @@ def gen_labware(rng, kind, name, regime, size_class, idx, opts):
                     if ini[rr][cc] > 0 and rng.random() < (0.5 if nm < 0.7 else 1.0):
                         wid = well_id(rr, cc)
                         names[wid] = rng.choice(COMPONENTS) if shared else f"{rng.choice(COMPONENTS)}{rr}_{cc}"
+                        if rng.random() < 0.05:
+                            names[wid] = rng.choice(LAB_NAMES[:12])  # a component called like some labware
                     elif rng.random() < 0.15:
                         # an explicit None entry: "no name given" (legal for filled and for empty wells)
                         names[well_id(rr, cc)] = None
